@@ -41,3 +41,39 @@ Theorem C08_filter_keeps_unchanged_parts : forall ps ch,
   NoDup ps -> Permutation (filter_changed ps ch ++ filter (inb ch) ps) ps.
 Proof. exact filter_changed_perm. Qed.
 Print Assumptions C08_filter_keeps_unchanged_parts.
+
+(* ---- the tracker (startTrack): "a file is written to the sent log and polled only once
+   every one of its bytes has been acknowledged" ---- *)
+From STS Require Import Model.Tracker Proofs.TrackerP.
+
+(* for EVERY sequence of forwarded payloads (any grouping and order of parts, several files
+   interleaved, versions of a name replacing one another): whatever the tracker writes to
+   the sent log or hands to the poller, the lengths of the parts acknowledged for that very
+   version of that name add up to at least the send size announced for it *)
+Theorem C08_logged_only_when_fully_acknowledged : forall pls ev,
+  Forall (Forall (fun q => 0 <= tp_len q)) pls ->
+  In ev (snd (track_run pls)) ->
+  match ev with
+  | TLogged n h | THanded n h =>
+      exists p, In p (concat pls) /\ tp_name p = n /\ tp_hash p = h /\ tp_send p <= acked n h (concat pls)
+  end.
+Proof.
+  intros pls ev Hp Hin. pose proof (tracker_logs_only_fully_acknowledged pls ev Hp Hin) as G.
+  destruct ev; exact G.
+Qed.
+Print Assumptions C08_logged_only_when_fully_acknowledged.
+
+(* ... and a byte count is enough: pairwise disjoint ranges inside [0, size) whose lengths
+   add up to size leave out no byte (the send loop forwards every part exactly once,
+   C08_no_part_lost_or_counted_twice; the chunks of a file are disjoint, C11) *)
+Theorem C08_count_means_every_byte : forall size l x,
+  Forall (within 0 size) l -> ForallOrdPairs disj l -> size <= total l ->
+  0 <= x < size -> exists i, In i l /\ fst i <= x < snd i.
+Proof. exact disjoint_ranges_adding_up_cover. Qed.
+Print Assumptions C08_count_means_every_byte.
+
+(* whatever is complete is handed on: nothing complete stays in the tracker *)
+Theorem C08_tracker_keeps_only_incomplete : forall pls n e,
+  In (n, e) (fst (track_run pls)) -> te_sent e < te_size e.
+Proof. exact tracker_leaves_only_incomplete. Qed.
+Print Assumptions C08_tracker_keeps_only_incomplete.
